@@ -436,6 +436,9 @@ def r04_7(ctx):
 
 
 def run(ctx):
+    # R04.8 = R05.6: structure of the truncation (HB <-> THB transforms and represent_fine are observed by this property)
+    import rules.C05 as c05
+    ctx.shared(c05.r05_6, 'R05.6', 'R04.8')
     r04_7(ctx)
     r04_1(ctx)
     r04_2(ctx)
